@@ -21,6 +21,15 @@ let () =
         (Model.c11_wm_tx sha256 (vi ver) (List.map v_in (vl ins)) (List.map v_out (vl outs)) (vi lt)
            (vi idx) (vi amount) (vb sc) (vopt vi flag))
     | _ -> raise (Bad "arity"));
+  register "c11_wm_tx_seq" (function
+    | [snaps] ->
+      let snap v = match vtuple v with
+        | [ver; ins; outs; lt; idx; amount; sc; flag] ->
+          (((((((vi ver, List.map v_in (vl ins)), List.map v_out (vl outs)), vi lt), vi idx), vi amount), vb sc), vopt vi flag)
+        | _ -> raise (Bad "snapshot tuple") in
+      ROk (VL (List.map (function Model.Ok b -> VB b | Model.Err _ -> VNone)
+                 (Model.c11_wm_tx_seq sha256 (List.map snap (vl snaps)))))
+    | _ -> raise (Bad "arity"));
   register "c11_spec_preimage" (function
     | [ver; ins; outs; lt; idx; amount; sc; flag] ->
       ROk (ob (Model.c11_spec_preimage sha256 (vi ver) (List.map v_in (vl ins)) (List.map v_out (vl outs)) (vi lt)
